@@ -1,4 +1,5 @@
 """C11 — the S-expression reader returns the text's parenthesis structure, all of it."""
+import concurrent.futures
 import itertools
 import json
 import random
@@ -182,12 +183,12 @@ def build_inputs(rng, tier):
 
 
 # ---------------------------------------------------------------- call sequences on one path (round 3, seeded change C11_D)
-def render_items(rng, tree, file_mode, style):
+def render_items(rng, tree, file_mode, style, case_fn=rand_case):
     """like render(), but keeps the pieces: ([(separator, token)], trailer)"""
     items, prev_atom = [], False
     for t in flatten(tree):
         is_atom = t not in "()"
-        items.append((rand_sep(rng, file_mode, prev_atom and is_atom, style), rand_case(rng, t)))
+        items.append((rand_sep(rng, file_mode, prev_atom and is_atom, style), case_fn(rng, t)))
         prev_atom = is_atom
     trailer = rand_sep(rng, file_mode, False, style)
     if style == "comments" and rng.random() < 0.3:
@@ -356,7 +357,7 @@ def translated(text):
     return text.replace("\r\n", "\n").replace("\r", "\n")
 
 
-def build_big_case(rng, target_len, buf, target_class, variant):
+def build_big_case(rng, target_len, buf, target_class, variant, force_style=None):
     """text = shift + prefix + blocks repeated + suffix, whose token stream is the flattening of one tree (the
     generator's expectation); the shift is chosen so that offset `buf` falls into `target_class` — offsets counted
     in bytes of the file ('raw') or in characters after newline translation ('translated': what a text-mode
@@ -366,6 +367,8 @@ def build_big_case(rng, target_len, buf, target_class, variant):
     nl = "\r\n" if target_class == "inside-crlf" else rng.choice(["\n", "\n", "\r\n"])
     if target_class in ("after-newline", "inside-crlf") and style == "oneline":
         style = "lines"
+    if force_style:
+        style = force_style
     view = "raw" if (nl == "\n" or target_class == "inside-crlf" or rng.random() < 0.4) else "translated"
     depth = rng.randint(1, 3)
     ptoks, stoks = [], []
@@ -458,11 +461,16 @@ def build_big(rng, tier):
     if tier == "thorough":
         plan.append((rng.randint(270000, 300000), 262144, "inside-token", "ok"))
         plan.append((rng.randint(270000, 300000), 262144, "inside-comment", "ok"))
+    # the whole text on ONE line (a reader with a line-length limit would cut it): one every run
+    plan.append((rng.randint(9000, 21000), rng.choice([4096, 8192]), "inside-token", "ok", "oneline"))
+    if tier == "thorough":
+        plan.append((rng.randint(66000, 74000), 65536, "inside-token", "ok", "oneline"))
+        plan.append((rng.randint(131500, 140000), 131072, "between-tokens", "ok", "oneline"))
     cases = []
-    for target_len, buf, klass, variant in plan:
+    for target_len, buf, klass, variant, *rest in plan:
         if buf >= target_len:
             buf = 4096
-        c = build_big_case(rng, target_len, buf, klass, variant)
+        c = build_big_case(rng, target_len, buf, klass, variant, *rest)
         for fm in (True, False):
             cases.append(dict(c, file=fm))
     return cases
@@ -496,6 +504,11 @@ def u_lower(tok):
     return "".join(U_LOWER.get(c, c.lower() if ord(c) < 128 else c) for c in tok)
 
 
+def u_case(rng, tok):
+    """case noise on the ASCII letters only (upper() of a non-ASCII letter may be a different string: 'ss' for U+00DF)"""
+    return "".join((c.upper() if rng.random() < 0.4 else c.lower()) if c.isascii() else c for c in tok)
+
+
 def rand_u_atom(rng):
     pool = list(U_LOWER) + U_CASELESS + list("abXY-_?:12")
     return "".join(rng.choice(pool) for _ in range(rng.randint(1, 8)))
@@ -509,7 +522,7 @@ def build_utf8(rng, tier):
         t = rand_tree(rng, rng.randint(1, 4), atoms)
         if len(flatten(t)) > 40:
             continue
-        items, trailer = render_items(rng, t, "both", rng.choice(["plain", "ws", "comments"]))
+        items, trailer = render_items(rng, t, "both", rng.choice(["plain", "ws", "comments"]), case_fn=u_case)
         # non-ASCII characters inside the comments as well
         items = [(s.replace(";", "; " + rand_u_atom(rng) + " (", 1) if ";" in s and rng.random() < 0.7 else s, tok) for s, tok in items]
         cases.append(dict(kind="utf8", text=items_text(items, trailer), expect={"ok": " ".join(u_lower(x) for x in flatten(t))}))
@@ -525,6 +538,19 @@ def build_utf8(rng, tier):
     return cases
 
 
+def leaves_tokens_unread(plain_text):
+    """class of finding D02 for a comment-free text: a complete form is followed by more tokens"""
+    toks = plain_text.replace("(", " ( ").replace(")", " ) ").split()
+    depth = 0
+    for i, t in enumerate(toks):
+        depth += (t == "(") - (t == ")")
+        if depth < 0:
+            return False
+        if depth == 0:
+            return i + 1 < len(toks)
+    return False
+
+
 def judge_utf8(c, res):
     """None when fine, else the reason"""
     if not isinstance(res, dict) or "file" not in res:
@@ -534,6 +560,8 @@ def judge_utf8(c, res):
         return "file input and string input differ"
     exp = c["expect"]
     if exp == "raised" and "ok" in f:
+        if leaves_tokens_unread(c["text"]):
+            return "D02"                      # the recorded finding: the first complete form is returned, the tail ignored
         return "unbalanced text accepted"
     if isinstance(exp, dict) and f.get("ok") != exp["ok"]:
         return "result differs from the token tree the text was rendered from"
@@ -609,6 +637,21 @@ def run(args):
     facts_ok = (facts.get("isspace") == WS and facts.get("split") == WS and facts.get("lower_ok")
                 and facts.get("lower_changes") == list(range(65, 91)))
     timing, t0 = {}, time.time()
+
+    def big_part():
+        bres = run_impl([{"op": "c11.parse_big", "segs": b["segs"], "file": b["file"], "expect_toks": b.get("expect_toks")}
+                         for b in bigs], hashseed=0, nproc=min(8, len(bigs)))
+        bcases = []
+        for b, res in zip(bigs, bres):
+            slim = {k: v for k, v in b.items() if k != "expect_toks"}
+            slim["chars"] = sum(len(x) * r for x, r in b["segs"])
+            bcases.append({"lit": big_lit(b, res), "input": {"big": b, "summary": slim, "implementation": res},
+                           "nontrivial": True, "witness_of": None, "klass": b.get("klass")})
+        bver, binfo = run_case_shards(PROP + "/big", "Corr.C11", [c["lit"] for c in bcases], shard_size=1, run_fn="run_big",
+                                      header_extra="From Coq Require Import Uint63.\nFrom Verif Require Import Corr.BigText.\n")
+        return bres, bcases, bver, binfo
+    # the large cases are evaluated while the ordinary ones run (their own work directory: work/C11/big)
+    big_future = concurrent.futures.ThreadPoolExecutor(max_workers=1).submit(big_part) if bigs else None
     jobs = [{"op": "c11.parse", "text": i["text"], "file": i["file"]} for i in inputs]
     jobs += [{"op": "c11.sequence", "steps": sq["steps"]} for sq in seqs]
     raw = run_impl(jobs, hashseed=0)
@@ -638,16 +681,7 @@ def run(args):
     # LARGE inputs: one shard per (text, mode); the observable is a digest of the token stream
     if bigs:
         small_counts, small_distinct = dict(cov.get("verdict_counts", {})), cov.get("distinct_nontrivial", 0)
-        bres = run_impl([{"op": "c11.parse_big", "segs": b["segs"], "file": b["file"], "expect_toks": b.get("expect_toks")}
-                         for b in bigs], hashseed=0, nproc=min(8, len(bigs)))
-        bcases = []
-        for b, res in zip(bigs, bres):
-            slim = {k: v for k, v in b.items() if k != "expect_toks"}
-            slim["chars"] = sum(len(x) * r for x, r in b["segs"])
-            bcases.append({"lit": big_lit(b, res), "input": {"big": b, "summary": slim, "implementation": res},
-                           "nontrivial": True, "witness_of": None, "klass": b.get("klass")})
-        bver, binfo = run_case_shards(PROP + "/big", "Corr.C11", [c["lit"] for c in bcases], shard_size=1, run_fn="run_big",
-                                      header_extra="From Coq Require Import Uint63.\nFrom Verif Require Import Corr.BigText.\n")
+        bres, bcases, bver, binfo = big_future.result()
         n_before = len(rep.violations)
         decide(rep, PROP, "Corr.C11", bcases, bver, binfo, explain_expr="explain_big %s",
                header_extra="From Coq Require Import Uint63.\nFrom Verif Require Import Corr.BigText.\n")
@@ -669,21 +703,24 @@ def run(args):
         cov["big_inputs"] = {"cases": len(bigs), "chars": sorted({sum(len(x) * r for x, r in b["segs"]) for b in bigs}),
                              "variants": {v: sum(1 for b in bigs if b["variant"] == v) for v in sorted({b["variant"] for b in bigs})},
                              "targets_hit": sum(1 for b in bigs if b.get("target_hit")),
+                             "styles": {v: sum(1 for b in bigs if b["style"] == v) for v in sorted({b["style"] for b in bigs})},
                              "boundaries": boundary_table(bigs)}
     timing["big_s"] = round(time.time() - t0, 1)
     # non-ASCII text: outside the model, Python-side oracle
     if not args.replay or u_replay is not None:
         ucases = [u_replay] if u_replay is not None else build_utf8(random.Random(args.seed * 7919 + 14), args.tier)
         ures = run_impl([{"op": "c11.parse_utf8", "text": c["text"]} for c in ucases], hashseed=0, nproc=2)
-        bad = 0
+        bad = known_d02 = 0
         for k, (c, r) in enumerate(zip(ucases, ures)):
             why = judge_utf8(c, r)
-            if why:
+            if why == "D02":
+                known_d02 += 1
+            elif why:
                 bad += 1
                 if bad <= 4:
                     rep.violation(write_replay(PROP, "utf8_%04d" % k, {"kind": "input", "why": why + " (non-ASCII text: judged by the Python-side "
                                                                     "oracle, outside the Coq model)", "input": {"utf8": c, "implementation": r}}), True)
-        cov["utf8"] = {"cases": len(ucases), "failed": bad, "kinds": {kd: sum(1 for c in ucases if c["kind"] == kd) for kd in sorted({c["kind"] for c in ucases})},
+        cov["utf8"] = {"cases": len(ucases), "failed": bad, "in_class_of_D02": known_d02, "kinds": {kd: sum(1 for c in ucases if c["kind"] == kd) for kd in sorted({c["kind"] for c in ucases})},
                        "oracle": "Python side only: generator's tree lower-cased by an explicit table; file (UTF-8) == string",
                        "unicode_space_observed": {repr(c["text"][2]): r.get("str") for c, r in zip(ucases, ures) if c["kind"] == "utf8-unicode-space"},
                        "bom_observed": [r for c, r in zip(ucases, ures) if c["kind"] == "utf8-bom"]}
